@@ -197,6 +197,10 @@ func (f *Face) getGlyfPoints(gid tables.GlyphID, computeExtents bool) (ext Glyph
 	}
 	var allPoints []contourPoint
 	f.getPointsForGlyph(gid, 0, &allPoints)
+	if len(allPoints) < phantomCount {
+		// a component could not be resolved (invalid glyph index or nesting too deep)
+		return
+	}
 
 	copy(ph[:], allPoints[len(allPoints)-phantomCount:])
 
